@@ -187,7 +187,7 @@ impl Property for C18 {
     }
 
     fn cases(tier: Tier) -> u32 {
-        tier.pick(8_000, 200_000)
+        tier.pick(8_000, 1_000_000)
     }
 
     fn level() -> &'static str {
